@@ -270,7 +270,7 @@ pub fn op_strategy() -> BoxedStrategy<Op> {
     let kind2 = prop_oneof![2 => Just(SendKind::Qos0), 2 => Just(SendKind::Qos1), 1 => Just(SendKind::Qos2), 1 => Just(SendKind::Subscribe), 1 => Just(SendKind::Unsubscribe), 1 => Just(SendKind::NoBlock)];
     prop_oneof![
         6 => (kind, prop_oneof![6 => Just(0u8), 1 => 1u8..3]).prop_map(|(kind, own_id)| Op::Send { kind, again: false, own_id }),
-        2 => (kind2, 0u8..3).prop_map(|(kind, how)| Op::SendBad { kind, how }),
+        2 => (kind2, 0u8..3, prop_oneof![3 => Just(0u8), 1 => 1u8..3]).prop_map(|(kind, how, own)| Op::SendBad { kind, how: how | own << 2 }),
         4 => (0u8..2, prop_oneof![1 => Just(0u8), 6 => 1u8..12, 1 => Just(200u8)], prop_oneof![6 => Just(0u8), 1 => Just(1u8), 1 => Just(2u8), 2 => Just(3u8)]).prop_map(|(qos, declared, bad)| Op::StreamStart { qos, declared, bad }),
         8 => (0u8..2, prop_oneof![1 => Just(0u8), 2 => Just(1u8), 2 => Just(2u8), 4 => Just(3u8), 1 => Just(4u8), 2 => Just(5u8)]).prop_map(|(stream, len)| Op::Chunk { stream, len }),
         1 => (0u8..2).prop_map(Op::StreamDrop),
